@@ -1,4 +1,5 @@
 import Op2Proofs.WriterLemmas
+import Op2Proofs.LittleEndian
 import Op2Model.Gen.Layout
 /-!
 # C14 — writers write exactly what the history implies and refuse what does not fit
@@ -73,6 +74,34 @@ theorem C14_u16_roundtrip (v : Nat) (h : v < 65536) (rest : Bytes) : decU16 (enc
 theorem C14_u32_roundtrip (v : Nat) (h : v < 4294967296) (rest : Bytes) : decU32 (encU32 v ++ rest) = v := by
   simp only [encU32, decU32, List.cons_append, List.nil_append, UInt8.toNat_ofNat']
   omega
+
+/-- every integer width at once (`uint8_t` … `uint64_t` and beyond): the `w` little-endian bytes a typed write emits for
+    `v` read back as `v` — and as `v mod 2^(8w)`, nothing else, when `v` does not fit -/
+theorem C14_le_roundtrip (w v : Nat) :
+    leVal ((List.range w).map (fun i => UInt8.ofNat (v / 2 ^ (8 * i)))) = v % 2 ^ (8 * w) ∧
+    (v < 2 ^ (8 * w) → leVal ((List.range w).map (fun i => UInt8.ofNat (v / 2 ^ (8 * i)))) = v) := by
+  rw [range_map_eq_encLE, leVal_encLE]
+  exact ⟨rfl, fun h => Nat.mod_eq_of_lt h⟩
+
+/-- … and the other way round: writing the value read from `b` at `|b|` bytes reproduces `b` (mutual inverses) -/
+theorem C14_le_inverse (b : Bytes) :
+    (List.range b.length).map (fun i => UInt8.ofNat (leVal b / 2 ^ (8 * i))) = b ∧ leVal b < 2 ^ (8 * b.length) := by
+  rw [range_map_eq_encLE, encLE_leVal]
+  exact ⟨rfl, leVal_lt b⟩
+
+/-- size-prefixed containers: whatever `Write<SizeType>(container)` accepted, `Read<SizeType>(container)` returns — for every
+    prefix width, signedness and element size, at any position of any stream, whatever follows; the reader ends exactly
+    behind the container -/
+theorem C14_prefixed_roundtrip (width : Nat) (signed : Bool) (esz maxSize allocCap count : Nat) (payload out pre rest : Bytes)
+    (hw : writePrefixed width signed payload count = .ok out) (hlen : payload.length = count * esz)
+    (hmax : count ≤ maxSize) (hcap : count * esz < allocCap) (hwd : 0 < width) :
+    readPrefixed RSpec.rd width signed esz maxSize allocCap { data := pre ++ out ++ rest, pos := pre.length } =
+      .ok (payload, { data := pre ++ out ++ rest, pos := pre.length + out.length }) :=
+  prefixed_roundtrip width signed esz maxSize allocCap count payload out pre rest hw hlen hmax hcap hwd
+
+example : writePrefixed 2 true [7, 0, 8, 0, 9, 0] 3 = .ok [3, 0, 7, 0, 8, 0, 9, 0] ∧
+    readPrefixed RSpec.rd 2 true 2 1000 1000 { data := [1] ++ [3, 0, 7, 0, 8, 0, 9, 0] ++ [5], pos := 1 } =
+      .ok ([7, 0, 8, 0, 9, 0], { data := [1] ++ [3, 0, 7, 0, 8, 0, 9, 0] ++ [5], pos := 9 }) := ⟨rfl, rfl⟩
 
 /-! ## copying a reader into a writer transfers exactly the remaining bytes, for every chunk size -/
 
